@@ -70,6 +70,7 @@ theorem Upd_undo (e : Entry) (c : Ctx) : Upd c.st (undo e c).st := by
   | refund prev => exact Upd.refl _
   | addLog tx => exact ⟨rfl, fun _ => Or.inl rfl⟩
   | touch a => exact Upd.refl _
+  | addPreimage p => exact ⟨rfl, fun _ => Or.inl rfl⟩
   | tokenBalance a t prev =>
     simp only [undo, modTok]
     cases h : peek c.st a with
@@ -200,6 +201,16 @@ theorem E_refund (c : Ctx) (r : Nat) :
     Ext c { c with st := { c.st with journal := .refund c.st.refund :: c.st.journal, refund := r } } := by
   refine Ext.push1 (.refund c.st.refund) ⟨rfl, fun _ => Or.inl rfl⟩ rfl ?_
   simp [abs, undo, peek]
+
+theorem E_pre (c : Ctx) (p : Nat) (d : Bytes) (h : c.st.preimages p = none) :
+    Ext c { c with st := { c.st with journal := .addPreimage p :: c.st.journal, preimages := upd c.st.preimages p (some d) } } := by
+  refine Ext.push1 (.addPreimage p) ⟨rfl, fun _ => Or.inl rfl⟩ rfl ?_
+  simp only [abs, undo, peek]
+  congr 1
+  funext x
+  by_cases hx : x = p
+  · subst hx; simp [h]
+  · simp [hx]
 
 /-! ### token writes -/
 
